@@ -165,8 +165,29 @@ impl PtrGuard {
 //@endfn
 }
 
+impl PtrGuard {
+    /// R14: as_ptr() on a guard that is a temporary of a `let` initializer -- the pointer outlives the guard.
+    /// Standard build: the guard is a no-op, the pointer is as good as the accessor's.  Xen build: the
+    /// guard's window is gone when the statement ends, the pointer is not backed by a live mapping.
+    pub fn as_ptr_temp(&self) -> (r: Ptr)
+//@if xen
+        ensures r.a == self.addr.a, r.lo == self.addr.lo, r.hi == self.addr.hi, !r.live@, // [C17]
+    { Ptr { a: self.addr.a, lo: self.addr.lo, hi: self.addr.hi, live: Ghost(false) } }
+//@else
+        ensures r == self.addr,
+    { self.addr }
+//@endif
+}
 pub struct PtrGuardMut(pub PtrGuard);
 impl PtrGuardMut {
+    pub fn as_ptr_temp(&self) -> (r: Ptr)
+//@if xen
+        ensures r.a == self.0.addr.a, r.lo == self.0.addr.lo, r.hi == self.0.addr.hi, !r.live@, // [C17]
+    { Ptr { a: self.0.addr.a, lo: self.0.addr.lo, hi: self.0.addr.hi, live: Ghost(false) } }
+//@else
+        ensures r == self.0.addr,
+    { self.0.addr }
+//@endif
 //@fn src/volatile_memory.rs :: impl PtrGuardMut :: write :: tags=C17
 //@spec
 //@if xen
@@ -216,7 +237,7 @@ impl<'a, B: BitmapSlice> VolatileSlice<'a, B> {
 
 //@fn src/volatile_memory.rs :: impl<'a, B: BitmapSlice> VolatileSlice<'a, B> :: with_bitmap :: tags=C01
 //@spec
-    ensures r.addr == addr, r.size == size, r.bitmap == bitmap, r.mmap == mmap,
+    ensures r.addr == addr, r.size == size, r.bitmap == bitmap, r.mmap == mmap, // [C01,C17]
 //@end
 //@endfn
 
@@ -260,7 +281,7 @@ impl<'a, B: BitmapSlice> VolatileSlice<'a, B> {
     ensures
         count <= self.size ==> r is Ok, // [C01,C04,C18]
         count > self.size ==> r is Err, // [C01]
-        r is Ok ==> r.unwrap().is_sub(self, count as int, self.size - count), // [C01,C04,C05]
+        r is Ok ==> r.unwrap().is_sub(self, count as int, self.size - count), // [C01,C04,C05,C17]
 //@end
 //@canary wrapping_sub :: \.checked_sub\(count\) => .checked_sub(0).map(|x: usize| x.wrapping_sub(count))
 //@endfn
@@ -271,7 +292,7 @@ impl<'a, B: BitmapSlice> VolatileSlice<'a, B> {
     ensures
         offset + count <= self.size ==> r is Ok, // [C01,C04,C18]
         offset + count > self.size ==> r is Err, // [C01]
-        r is Ok ==> r.unwrap().is_sub(self, offset as int, count as int), // [C01,C04,C05]
+        r is Ok ==> r.unwrap().is_sub(self, offset as int, count as int), // [C01,C04,C05,C17]
 //@end
 //@canary slice_at0 :: self\.bitmap\.slice_at\(offset\) => self.bitmap.slice_at(0)
 //@endfn
@@ -282,7 +303,7 @@ impl<'a, B: BitmapSlice> VolatileSlice<'a, B> {
     ensures
         mid <= self.size ==> r is Ok, // [C01,C04,C18]
         mid > self.size ==> r is Err, // [C01]
-        r is Ok ==> r.unwrap().0.is_sub(self, 0, mid as int) && r.unwrap().1.is_sub(self, mid as int, self.size - mid), // [C01,C04,C05]
+        r is Ok ==> r.unwrap().0.is_sub(self, 0, mid as int) && r.unwrap().1.is_sub(self, mid as int, self.size - mid), // [C01,C04,C05,C17]
 //@end
 //@endfn
 
@@ -360,7 +381,7 @@ where
 //@fn src/volatile_memory.rs :: impl<'a, T, B> VolatileRef<'a, T, B> :: with_bitmap :: tags=C01
 //@sub addr: addr as Ptr, => addr: addr, phantom_t: PhantomData,
 //@spec
-    ensures r.addr == addr, r.bitmap == bitmap, r.mmap == mmap,
+    ensures r.addr == addr, r.bitmap == bitmap, r.mmap == mmap, // [C01,C17]
 //@end
 //@endfn
 //@fn src/volatile_memory.rs :: impl<'a, T, B> VolatileRef<'a, T, B> :: ptr_guard :: tags=C17
@@ -398,7 +419,7 @@ where
 //@sub self\.addr as Ptr => self.addr
 //@spec
     requires self.wf(),
-    ensures r.wf(), r.addr == self.addr, r.size == vstd::layout::size_of::<T>(), shifted(&r.bitmap, &self.bitmap, 0), r.mmap == self.mmap, // [C01,C05]
+    ensures r.wf(), r.addr == self.addr, r.size == vstd::layout::size_of::<T>(), shifted(&r.bitmap, &self.bitmap, 0), r.mmap == self.mmap, // [C01,C05,C17]
 //@end
 //@endfn
 }
@@ -430,7 +451,7 @@ where
     { unimplemented!() }
 //@fn src/volatile_memory.rs :: impl<'a, T, B> VolatileArrayRef<'a, T, B> :: with_bitmap :: tags=C01
 //@spec
-    ensures r.addr == addr, r.nelem == nelem, r.bitmap == bitmap, r.mmap == mmap,
+    ensures r.addr == addr, r.nelem == nelem, r.bitmap == bitmap, r.mmap == mmap, // [C01,C17]
 //@end
 //@endfn
 //@fn src/volatile_memory.rs :: impl<'a, T, B> VolatileArrayRef<'a, T, B> :: is_empty :: tags=C01
@@ -463,7 +484,7 @@ where
 //@fn src/volatile_memory.rs :: impl<'a, T, B> VolatileArrayRef<'a, T, B> :: to_slice :: tags=C01,C05,C07
 //@spec
     requires self.wf(),
-    ensures r.wf(), r.addr == self.addr, r.size == self.nelem * vstd::layout::size_of::<T>(), shifted(&r.bitmap, &self.bitmap, 0), r.mmap == self.mmap, // [C01,C05]
+    ensures r.wf(), r.addr == self.addr, r.size == self.nelem * vstd::layout::size_of::<T>(), shifted(&r.bitmap, &self.bitmap, 0), r.mmap == self.mmap, // [C01,C05,C17]
 //@end
 //@endfn
 //@fn src/volatile_memory.rs :: impl<'a, T, B> VolatileArrayRef<'a, T, B> :: ref_at :: tags=C01,C07 asserts=guard
@@ -474,7 +495,7 @@ where
     ensures index < self.nelem,
          r.wf(), r.addr.a == self.addr.a + index * vstd::layout::size_of::<T>(), // [C01,C04]
         r.addr.lo == self.addr.lo && r.addr.hi == self.addr.hi,
-        shifted(&r.bitmap, &self.bitmap, index * vstd::layout::size_of::<T>()), r.mmap == self.mmap, // [C05]
+        shifted(&r.bitmap, &self.bitmap, index * vstd::layout::size_of::<T>()), r.mmap == self.mmap, // [C05,C17]
 //@end
 //@before 1 /let byteofs/
             proof {
@@ -518,7 +539,7 @@ where
 
 pub fn array_ref_from_slice<'a, B: BitmapSlice>(slice: VolatileSlice<'a, B>) -> (r: VolatileArrayRef<'a, u8, B>)
     requires slice.wf(), slice.size <= isize::MAX,
-    ensures r.wf(), r.addr == slice.addr, r.nelem == slice.size, r.bitmap == slice.bitmap, r.mmap == slice.mmap, // [C01,C05]
+    ensures r.wf(), r.addr == slice.addr, r.nelem == slice.size, r.bitmap == slice.bitmap, r.mmap == slice.mmap, // [C01,C05,C17]
 {
     proof { layout_u8(); }
     from_body(slice)
@@ -529,7 +550,7 @@ impl ByteValued for u8 {}
 //@sub -> Self => -> VolatileArrayRef<'a, u8, B>
 //@sub ^\s*fn from\( => fn from_body<'a, B: BitmapSlice>(
 //@spec
-    ensures r.addr == slice.addr, r.nelem == slice.size, r.bitmap == slice.bitmap, r.mmap == slice.mmap,
+    ensures r.addr == slice.addr, r.nelem == slice.size, r.bitmap == slice.bitmap, r.mmap == slice.mmap, // [C01,C17]
 //@end
 //@endfn
 
@@ -550,6 +571,57 @@ pub trait WriteVolatile {
         requires buf.wf(), // [C01]
             old(self).accepts(*buf); // [C01,C04,C03]
 }
+
+// ------------------------------------------------------------------ io.rs: descriptor transfers (one syscall each)
+pub trait AsRawFd { fn as_raw_fd(&self) -> i32; }
+/// libc::read / libc::write (trusted boundary): the kernel touches [p, p+count) of the caller's memory --
+/// it must be the accessor's bytes, and (on-demand memory) inside a window that is still mapped
+#[verifier::external_body]
+pub fn libc_read(fd: i32, dst: Ptr, count: usize) -> (r: isize)
+    requires dst.valid_for(count as int), // [C01]
+        dst.live@, // [C17]
+    ensures -1 <= r <= count,
+{ unimplemented!() }
+#[verifier::external_body]
+pub fn libc_write(fd: i32, src: Ptr, count: usize) -> (r: isize)
+    requires src.valid_for(count as int), // [C01]
+        src.live@, // [C17]
+    ensures -1 <= r <= count,
+{ unimplemented!() }
+/// isize -> usize `try_into().unwrap()`
+pub fn isize_to_usize(x: isize) -> (r: usize)
+    requires x >= 0, // [C07]
+    ensures r == x
+{ x as usize }
+#[verifier::external_body]
+pub fn last_os_error() -> IoError { unimplemented!() }
+
+//@fn src/io.rs :: - :: read_volatile_raw_fd :: tags=C01,C07,C17,C13
+//@sub <Fd: AsRawFd>\( => <Fd: AsRawFd, B: BitmapSlice>(
+//@sub VolatileSlice<impl BitmapSlice> => VolatileSlice<B>
+//@sub Result<usize, VolatileMemoryError> => Result<usize>
+//@sub \.cast::<libc::c_void>\(\) => 
+//@sub libc::read\( => libc_read(
+//@sub bytes_read\.try_into\(\)\.unwrap\(\) => isize_to_usize(bytes_read)
+//@sub VolatileMemoryError::IOError\(std::io::Error::last_os_error\(\)\) => Error::IOError(last_os_error())
+//@spec
+    requires old(buf).wf(),
+    ensures r matches Ok(n) ==> n <= old(buf).size, // [C13,C01]
+//@end
+//@endfn
+//@fn src/io.rs :: - :: write_volatile_raw_fd :: tags=C01,C07,C17,C13
+//@sub <Fd: AsRawFd>\( => <Fd: AsRawFd, B: BitmapSlice>(
+//@sub VolatileSlice<impl BitmapSlice> => VolatileSlice<B>
+//@sub Result<usize, VolatileMemoryError> => Result<usize>
+//@sub \.cast::<libc::c_void>\(\) => 
+//@sub libc::write\( => libc_write(
+//@sub bytes_written\.try_into\(\)\.unwrap\(\) => isize_to_usize(bytes_written)
+//@sub VolatileMemoryError::IOError\(std::io::Error::last_os_error\(\)\) => Error::IOError(last_os_error())
+//@spec
+    requires buf.wf(),
+    ensures r matches Ok(n) ==> n <= buf.size, // [C13,C01]
+//@end
+//@endfn
 
 impl ReadVolatile for &[u8] {
     open spec fn accepts<B: BitmapSlice>(&self, s: VolatileSlice<B>) -> bool { true }
@@ -778,7 +850,7 @@ impl<'a, B: BitmapSlice> VolatileMemory for VolatileSlice<'a, B> {
         && s.addr.lo == self.addr.lo && s.addr.hi == self.addr.hi && s.addr.live == self.addr.live
         && 0 <= off && 0 <= count && off + count <= self.size
         && s.addr.a == self.addr.a + off && s.size == count
-        && shifted(&s.bitmap, &self.bitmap, off)
+        && shifted(&s.bitmap, &self.bitmap, off) && s.mmap == self.mmap
     }
 //@fn src/volatile_memory.rs :: impl<B: BitmapSlice> VolatileMemory for VolatileSlice<'_, B> :: len :: tags=C01
 //@endfn
